@@ -1,3 +1,4 @@
 pub mod builtin_table;
 pub mod conv;
 pub mod evalcase;
+pub mod aikenrun;
